@@ -216,7 +216,18 @@ func (d *rdriver) compound(c *clientC) []*Op {
 		case 0:
 			ops = append(ops, read(curSid))
 		case 1:
-			ops = append(ops, d.rangeOp(&Op{Name: "LOCK", NewO: true, Sid2: curSid, LO: rLOs[d.pick(2)]}), read(curSid))
+			// (the file is not known yet: avoid any lock-owner that has
+			// lock state under another open-owner, see wouldAlias)
+			lo := rLOs[d.pick(2)]
+			aliased := false
+			for _, l := range c.locks {
+				if l.lo == lo && l.oo != o.OO {
+					aliased = true
+				}
+			}
+			if !aliased {
+				ops = append(ops, d.rangeOp(&Op{Name: "LOCK", NewO: true, Sid2: curSid, LO: lo}), read(curSid))
+			}
 		case 2:
 			ops = append(ops, write(curSid, "cc"), closeOp(curSid))
 		case 3:
@@ -250,7 +261,25 @@ func (d *rdriver) compound(c *clientC) []*Op {
 		if wouldAlias(c, oc, lo) {
 			return append(d.fhFor(oc.fh, true), d.rangeOp(&Op{Name: "LOCKT", LO: lo}))
 		}
-		return append(d.fhFor(oc.fh, true), d.rangeOp(&Op{Name: "LOCK", NewO: true, Sid2: d.mutate(c, oc.sid), LO: lo}))
+		// Only mutations that cannot denote another open of this client
+		// (state ID "other" values are small per-client counters).
+		id := oc.sid
+		switch m := d.pick(100); {
+		case m < 80:
+		case m < 85 && id.seq > 1:
+			id.seq--
+		case m < 90:
+			id.seq++
+		case m < 94:
+			id.seq = 0
+		case m < 96:
+			id.kind = "junk"
+		case m < 98:
+			id = anonSid
+		default:
+			id = sid{kind: "reg", other: uint64(800 + d.pick(3)), seq: 1}
+		}
+		return append(d.fhFor(oc.fh, true), d.rangeOp(&Op{Name: "LOCK", NewO: true, Sid2: id, LO: lo}))
 	case r < 60: // lock more
 		lc := d.someLock(c)
 		return append(d.fhFor(lc.fh, true), d.rangeOp(&Op{Name: "LOCK", Sid: d.mutate(c, lc.sid)}))
